@@ -19,6 +19,15 @@ fn c12_only_http_https_ws_wss_are_matched() {
             assert_eq!(e.check_network_request(&p).matched, eligible, "preparsed {url} as {t:?}");
         }
     }
+    // URLs without `//` after the scheme: the scheme is still the text before the first ':'
+    let e2 = Engine::from_rules(["*$image", "*$script", "*$document", "*$other"], ParseOptions::default());
+    for (url, eligible) in [("data:text/plain,hello", false), ("about:blank", false), ("blob:https://example.com/uuid", false), ("javascript:void(0)", false),
+                            ("https:example.com/a.js", true), ("http:/example.com/a.js", true), ("mailto:someone@example.com", false)] {
+        for t in ["image", "script", "document", "other"] {
+            let p = Request::preparsed(url, "example.com", "source.test", t, true);
+            assert_eq!(e2.check_network_request(&p).matched, eligible, "preparsed {url} as {t:?}");
+        }
+    }
     // "websocket schemes force the websocket type"
     let e = Engine::from_rules(["||example.com^$websocket"], ParseOptions::default());
     for t in ["script", "image", "websocket"] {
